@@ -21,7 +21,19 @@ EvWRun ==
     /\ Rec[l].res = "ok"                       \* an interruption or a partial write is not a failure
     /\ [len |-> Rec[l].len, d1 |-> Rec[l].d1, d2 |-> Rec[l].d2] = ref
     /\ UNCHANGED ref
-TraceNext == EvReset \/ EvWRef \/ EvWRun
+\* Append-only writer: `during` = (length, digests) of what the sink held after each insert,
+\* `final` = the same for the prefixes of the finished file of those lengths.
+EvWPrefix ==
+    /\ IsEvent("WPrefix")
+    /\ LET e == Rec[l] IN
+       /\ Len(e.during) = e.n /\ Len(e.final) = e.n
+       /\ \A i \in 1..e.n : e.during[i] = e.final[i]                       \* a prefix of the final file
+       /\ \A i \in 1..(e.n - 1) : e.during[i][1] <= e.during[i + 1][1]     \* never shrinks
+       /\ \A i \in 1..e.n : e.during[i][1] <= e.size - 22                  \* the trailer comes last
+    /\ UNCHANGED ref
+EvWPrefixSkip == IsEvent("WPrefixSkip") /\ UNCHANGED ref
+
+TraceNext == EvReset \/ EvWRef \/ EvWRun \/ EvWPrefix \/ EvWPrefixSkip
 TraceSpec == TraceInit /\ [][TraceNext]_vars
 TraceAccepted ==
     LET d == TLCGet("stats").diameter IN
